@@ -23,7 +23,18 @@ func TestDump(t *testing.T) {
 		ff.Case = b
 	}
 	var sc Scenario
-	if err := json.Unmarshal(ff.Case, &sc); err != nil {
+	var wrapped struct {
+		Scenario *Scenario `json:"scenario"`
+		Seg      *Scenario `json:"segmented"`
+	}
+	if json.Unmarshal(ff.Case, &wrapped) == nil && (wrapped.Scenario != nil || wrapped.Seg != nil) {
+		// cases of several properties embed the scenario
+		if wrapped.Scenario != nil {
+			sc = *wrapped.Scenario
+		} else {
+			sc = *wrapped.Seg
+		}
+	} else if err := json.Unmarshal(ff.Case, &sc); err != nil {
 		t.Fatal(err)
 	}
 	out := runScenario(&sc)
